@@ -701,10 +701,10 @@ func refPackagist(a, b string) (int, bool) {
 
 // ---------------------------------------------------------------------------------------------
 // Alpine apk: N[.N[.N]][_sufN][-rN] with the SAME number of numeric components on both sides,
-// no leading zeros, suffix always numbered. alpha < beta < pre < rc < (none) < cvs < svn < git < hg < p.
+// no leading zeros. alpha < beta < pre < rc < (none) < cvs < svn < git < hg < p.
 // Pairs where exactly one side has -rN, or with different component counts, are left out.
 
-var alpineCanon = regexp.MustCompile(`^(\d+(?:\.\d+){0,2})(?:_(alpha|beta|pre|rc|cvs|svn|git|hg|p)(\d+))?(?:-r(\d+))?$`)
+var alpineCanon = regexp.MustCompile(`^(\d+(?:\.\d+){0,2})(?:_(alpha|beta|pre|rc|cvs|svn|git|hg|p)(\d*))?(?:-r(\d+))?$`)
 
 var alpineRank = map[string]int{"alpha": 0, "beta": 1, "pre": 2, "rc": 3, "": 4, "cvs": 5, "svn": 6, "git": 7, "hg": 8, "p": 9}
 
@@ -734,7 +734,13 @@ func refAlpine(a, b string) (int, bool) {
 		return sgn(xr - yr), true
 	}
 	if x[2] != "" {
-		if d := numCmp(x[3], y[3]); d != 0 {
+		// an un-numbered suffix counts as 0 (apk test data: 1.3_alpha < 1.3_alpha2); "_alpha" vs
+		// "_alpha0" is left out
+		xs, ys := x[3], y[3]
+		if (xs == "") != (ys == "") && numCmp("0"+xs, "0"+ys) == 0 {
+			return 0, false
+		}
+		if d := numCmp("0"+xs, "0"+ys); d != 0 {
 			return d, true
 		}
 	}
